@@ -31,6 +31,18 @@ def main(tier):
     dis = [{"input": m, "model": o, "implementation": e} for o, e, m in zip(out, expect, meta) if o != e]
     chk.add_corr("neg/all-constructors", len(reqs), dis)
     chk.evaluations += len(reqs)
+    # once more, in reverse order, on the same objects: negate is a function of its argument
+    adis = []
+    for (d, p), e in reversed(list(zip(objs, expect))):
+        try:
+            r = S.show(lift.lift(negate(p)))
+        except Exception as ex:  # noqa: BLE001
+            r = f"RAISED {type(ex).__name__}"
+        if r != e:
+            adis.append({"input": d, "first_time": e, "second_time": r})
+    chk.add_corr("neg/again-in-reverse-order", len(objs), adis)
+    for a in adis[:5]:
+        chk.add_failure(a["input"] + "  [negated a second time]", {"what": "negate answers differently the second time", **a}, None)
     kinds = set()
     # the property on the real code
     values = pool.PROBE_VALUES + cases.coll_values()[:40] + cases.coll_values()[-5:]
